@@ -180,7 +180,8 @@ class C02(Check):
     def run_case(self, case, stats):
         vs = []
         if case["kind"] == "one":
-            self.eval_doc(json.loads(case["doc"]), case["v1"], case["pending"], ("replay",), stats, vs)
+            self.eval_doc(json.loads(case["doc"]), case["v1"], case["pending"], ("replay",), stats, vs,
+                          where=case.get("where"))
             return vs
         if case["kind"] == "sequence":
             return self.sequence(case, stats)
@@ -244,7 +245,7 @@ class C02(Check):
                 break
         return vs
 
-    def eval_doc(self, doc, v1, pending, desc, stats, vs):
+    def eval_doc(self, doc, v1, pending, desc, stats, vs, where=None):
         stats.evaluations += 1
         allowed, accept_ok, contact_open = spec.classify(copy.deepcopy(doc), v1)
         dev = PowHsm(seed=b"c02")
@@ -271,11 +272,14 @@ class C02(Check):
         if (accept_ok and allowed) or (not allowed and not accept_ok):
             stats.dont_care += 1
 
+        if where is None:
+            where = "%s:%s" % (desc[0], "+".join("/".join(p) for p in desc[1]) if len(desc) > 1 else "")
+
         def viol(clause, detail, observed, expected):
             vs.append(Violation("C02", "C02:%s:%s" % (clause, detail),
-                                {"kind": "one", "doc": json.dumps(doc), "v1": v1, "pending": pending},
+                                {"kind": "one", "doc": json.dumps(doc), "v1": v1, "pending": pending,
+                                 "where": where},
                                 None, observed, expected, clause))
-        where = "%s:%s" % (desc[0], "+".join("/".join(p) for p in desc[1]) if len(desc) > 1 else "")
         if exc is not None or not isinstance(code, int) or isinstance(code, bool):
             viol("no-verdict", harness.LAST_EXC_SITE[0] or "no-errorcode", {"reply": reply, "exc": exc},
                  {"allowed": sorted(allowed), "accept": accept_ok})
